@@ -442,3 +442,45 @@ func VerifC07_GatewayWeightStepReachesFixedPoint() { VerifC13_WeightStep() }
 // the step's split (C13.ensure.storedRouteCarriesTheStepSplit) — a verdict reached by comparing the desired rules with
 // a copy that was modified along with them would report every later step routed without writing it.
 func VerifC03_GatewayRoutedMeansTheStoredRouteCarriesTheSplit() { VerifC13_EnsureRoutesAndFinalise() }
+
+// VerifC13_MatchStepKeepsEveryUserRule: three user rules (each targeting the stable Service or another one), a match
+// step of one or two user matches of any kind (path only, header only, both): the user's rules are all still there, in
+// order and unchanged, in front of whatever the step generates — whichever rule the generation has nothing (more) to
+// do for.  (Fixed small rule shapes: the rule and match contents are covered by VerifC13_MatchStep.)
+func VerifC13_MatchStepKeepsEveryUserRule() {
+	r := c13Ctl()
+	svc := gatewayv1beta1.Kind("Service")
+	port := gatewayv1beta1.PortNumber(80)
+	pfx := gatewayv1beta1.PathMatchPathPrefix
+	paths := []string{"/", "/storage", "/list"}
+	var rules []gatewayv1beta1.HTTPRouteRule
+	for i := 0; i < 3; i++ {
+		name := gatewayv1beta1.ObjectName("other-svc")
+		if verifrt.Bool("rule.targetsStable") {
+			name = gatewayv1beta1.ObjectName(c13Stable)
+		}
+		p := paths[i]
+		rules = append(rules, gatewayv1beta1.HTTPRouteRule{
+			Matches:     []gatewayv1beta1.HTTPRouteMatch{{Path: &gatewayv1beta1.HTTPPathMatch{Type: &pfx, Value: &p}}},
+			BackendRefs: []gatewayv1beta1.HTTPBackendRef{{BackendRef: gatewayv1beta1.BackendRef{BackendObjectReference: gatewayv1beta1.BackendObjectReference{Kind: &svc, Name: name, Port: &port}}}},
+		})
+	}
+	orig := c13CopyRules(rules)
+	var user []v1beta1.HttpRouteMatch
+	nu := verifrt.IntRange("nUser", 1, 2)
+	for i := 0; i < nu; i++ {
+		user = append(user, c13UserMatch("u"))
+	}
+	got := r.buildDesiredHTTPRoute(rules, nil, user)
+	verifrt.Assert(len(got) >= len(orig), "C13.match.everyUserRuleKept.count")
+	if len(got) < len(orig) {
+		return
+	}
+	for i := range orig {
+		verifrt.Assert(c13RuleEq(orig[i], got[i]), "C13.match.everyUserRuleKept.equal")
+	}
+	one := int32(-1)
+	fin := r.buildDesiredHTTPRoute(c13CopyRules(got), &one, nil)
+	verifrt.Assert(len(fin) == len(orig), "C13.finalise.everyUserRuleKept")
+	verifrt.Cover("done")
+}
